@@ -943,7 +943,7 @@ func runBMSetConst(rc *RuleCtx) {
 func init() {
 	register(&Rule{
 		Name:     "FIELDLISTFIRST",
-		Doc:      "a declared list of fields is mirrored as a whole: the thrift descriptor builder (package thrift) does not pick element [0] of a `[]*parser.Field` of the IDL syntax tree (a function's Throws, its Arguments) — it ranges over the list. parseResponse built the response struct from `fn.Throws[0]` only: for `throws (1: E1 e1, 2: E2 e2)` field 2 was unknown to FieldById / FieldByKey, a response carrying e2 converted to `{}` with a nil error. (`fn.Arguments[0]` stays, exempted by name: a kitex method takes exactly one request struct and the parser rejects an empty list.)",
+		Doc:      "a declared list of fields is mirrored as a whole: the thrift descriptor builder (package thrift) does not pick element [0] of a `[]*parser.Field` of the IDL syntax tree (a function's Throws, its Arguments) — it ranges over the list. parseResponse built the response struct from `fn.Throws[0]` only: for `throws (1: E1 e1, 2: E2 e2)` field 2 was unknown to FieldById / FieldByKey, a response carrying e2 converted to `{}` with a nil error. (`….Arguments[0]` is accepted: a kitex method takes exactly one request struct and the parser rejects an empty list.)",
 		Configs:  "NP",
 		Floor:    map[string]int{"N": 1, "P": 1},
 		Controls: 1,
@@ -971,6 +971,12 @@ func runFieldListFirst(rc *RuleCtx) {
 				}
 				t := p.TypesInfo.TypeOf(ix.X)
 				if t == nil || !strings.HasSuffix(t.String(), "parser.Field") || !strings.HasPrefix(t.String(), "[]") {
+					return true
+				}
+				if sel, ok := ix.X.(*ast.SelectorExpr); ok && sel.Sel.Name == "Arguments" {
+					// by design: a method takes exactly one request struct (the parser rejects an empty list explicitly)
+					rc.Examined++
+					rc.add(nil, name, "first of "+types.ExprString(ix.X), ix.Pos(), "discharged", "the single request argument of a method (by design; further arguments are outside the supported IDL subset)", false)
 					return true
 				}
 				rc.Examined++
